@@ -9,25 +9,27 @@
 EXTENDS Naturals, Integers, Sequences, FiniteSets, TLC, Json
 CONSTANT TraceFile
 Traces == ndJsonDeserialize(TraceFile)
-VARIABLES tr, l, acc
-vars == <<tr, l, acc>>
+VARIABLES tr, l, acc, lmt      \* lmt: the configured limit NOW (events [k |-> "limit", n] change it; the others are reports)
+vars == <<tr, l, acc, lmt>>
 T == Traces[tr]
 Ev == T.events[l]
 Insts == {"i1", "i2", "i3"}
 RECURSIVE SumOver(_, _)
 SumOver(f, S) == IF S = {} THEN 0 ELSE LET x == CHOOSE y \in S : TRUE IN f[x] + SumOver(f, S \ {x})
-Init == tr \in DOMAIN Traces /\ l = 1 /\ acc = [i \in Insts |-> 0]
+Init == tr \in DOMAIN Traces /\ l = 1 /\ acc = [i \in Insts |-> 0] /\ lmt = T.limit
+IsRep == Ev.k = "acq"
 S2 == SumOver(acc, Insts) - acc[Ev.inst] + Ev.n
-After == IF Ev.n < 0 \/ Ev.err THEN acc ELSE [acc EXCEPT ![Ev.inst] = Ev.lim]
-OK == /\ Ev.n < 0 => (~Ev.accept /\ Ev.err)                                        \* a negative amount is refused
+After == IF ~IsRep \/ Ev.n < 0 \/ Ev.err THEN acc ELSE [acc EXCEPT ![Ev.inst] = Ev.lim]
+OK == ~IsRep \/
+      /\ Ev.n < 0 => (~Ev.accept /\ Ev.err)                                        \* a negative amount is refused
       /\ (Ev.n >= 0 /\ ~Ev.err) =>
-            /\ S2 < T.limit => (Ev.accept /\ Ev.lim = Ev.n)
-            /\ S2 = T.limit => Ev.lim = Ev.n
-            /\ (S2 > T.limit /\ Ev.n > acc[Ev.inst]) => (~Ev.accept /\ Ev.lim = acc[Ev.inst])
-            /\ (S2 > T.limit /\ Ev.n <= acc[Ev.inst]) => Ev.lim = Ev.n
-      /\ SumOver(acc, Insts) <= T.limit => SumOver(After, Insts) <= T.limit          \* the counts on record never sum above the limit
+            /\ S2 < lmt => (Ev.accept /\ Ev.lim = Ev.n)
+            /\ S2 = lmt => Ev.lim = Ev.n
+            /\ (S2 > lmt /\ Ev.n > acc[Ev.inst]) => (~Ev.accept /\ Ev.lim = acc[Ev.inst])
+            /\ (S2 > lmt /\ Ev.n <= acc[Ev.inst]) => Ev.lim = Ev.n
+      /\ SumOver(acc, Insts) <= lmt => SumOver(After, Insts) <= lmt          \* the counts on record never sum above the limit
       /\ Ev.n >= 0 => ~Ev.err                                                          \* (sequential reports without request ids are never refused with an error)
-Next == l <= Len(T.events) /\ (OK = TRUE) /\ l' = l + 1 /\ tr' = tr /\ acc' = After
+Next == l <= Len(T.events) /\ (OK = TRUE) /\ l' = l + 1 /\ tr' = tr /\ acc' = After /\ lmt' = IF IsRep THEN lmt ELSE Ev.n
 Spec == Init /\ [][Next]_vars
 Judge == (l <= Len(T.events) /\ ~OK) => PrintT(<<"REJECT", T.id, l>>)
 =============================================================================
